@@ -11,6 +11,10 @@ for d in sorted(glob.glob(f"{ROOT}/seeded/C*-*")):
     if ids and pid not in ids: continue
     if not os.path.isdir(f"{ROOT}/harness/{pid.lower()}"): continue
     meta = json.load(open(f"{d}/meta.json"))
+    if meta.get("skip_matrix"):
+        det = meta.get("detection", {})
+        rows.append((name, det.get("status", "skipped"), ", ".join(det.get("keys", [])[:3]), (meta.get("summary") or "")[:110].replace("\n", " ").replace("|", "/")))
+        continue
     patch = f"{d}/patch.rebased.diff" if os.path.exists(f"{d}/patch.rebased.diff") else f"{d}/patch.diff"
     env = dict(os.environ)
     rev = meta.get("detect_rev")
